@@ -329,6 +329,7 @@ class Interp(Hooks):
         self._live: dict[int, dict[int, set[str]]] = {}
         self.inlined_functions: set[str] = set()
         self.bool_defs: dict[str, ast.expr] = {}
+        self.comp_defs: dict[str, ast.expr] = {}
         self.site0 = None
         self.opaque_calls: dict[str, int] = {}
 
@@ -468,12 +469,41 @@ class Interp(Hooks):
                 return self.term(e.body, d)
             if k is False:
                 return self.term(e.orelse, d)
-            return f"ite({self._subst(e.test, d)}, {self.term(e.body, d)}, {self.term(e.orelse, d)})"
+            bt, ot = self.term(e.body, d), self.term(e.orelse, d)
+            sib = self._other_child(e.test, bt, ot, d)
+            if sib is not None:
+                return sib
+            return f"ite({self._subst(e.test, d)}, {bt}, {ot})"
         if isinstance(e, ast.UnaryOp) and isinstance(e.op, ast.Not):
             return f"not {self.term(e.operand, d)}"
         if isinstance(e, (ast.ListComp, ast.SetComp, ast.DictComp, ast.GeneratorExp, ast.Lambda, ast.JoinedStr)):
             return f"expr@L{getattr(e, 'lineno', 0)}c{getattr(e, 'col_offset', 0)}"
         return self._subst(e, d)
+
+    def _other_child(self, test: ast.expr, bt: str, ot: str, d: AState):
+        """`b if a == n else a` (or `a if a != n else b`) with (a, b) the two children of one parent: the OTHER child of
+        that parent, i.e. the sibling of n - the same term the remove-then-index idiom produces."""
+        if not (isinstance(test, ast.Compare) and len(test.ops) == 1 and isinstance(test.ops[0], (ast.Eq, ast.NotEq, ast.Is, ast.IsNot))):
+            return None
+        l, r = self.term(test.left, d), self.term(test.comparators[0], d)
+        eq = isinstance(test.ops[0], (ast.Eq, ast.Is))
+        chosen_if_equal, chosen_else = (bt, ot) if eq else (ot, bt)
+
+        def kids(t):
+            p = parse_call_term(t)
+            if p and p[0] == "succ1":
+                return p[1][0], 0, p[2]
+            m = _re.fullmatch(r"succs\((.*)\)@(\d+)#(\d)", t)
+            return (m.group(1), int(m.group(3)), int(m.group(2))) if m else None
+
+        ka, kb = kids(chosen_if_equal), kids(chosen_else)
+        if not ka or not kb or ka[0] != kb[0] or ka[2] != kb[2] or {ka[1], kb[1]} != {0, 1}:
+            return None
+        # the compared child is the one NOT chosen when the comparison succeeds
+        compared, n = (l, r) if l == chosen_else else ((r, l) if r == chosen_else else (None, None))
+        if compared is None:
+            return None
+        return f"sibling({ka[0]}, {n})@{ka[2]}"
 
     def _subst(self, e: ast.AST, d: AState) -> str:
         """Text of an expression with bound names / calls replaced by their terms."""
@@ -692,11 +722,68 @@ class CondMixin:
     def note_axiom(self, d: AState, ax: str, what: str):
         d.axioms.append(f"{ax}: {what}")
 
+    # ---- quantified tests: any(<gen>), all(<gen>), truthiness / len() of a filtered comprehension bound to a local
+    def quantifier(self, e: ast.expr, d: AState):
+        """-> (kind 'any'|'all', element test exprs (conjunction), target, iterable expr) or None"""
+        if isinstance(e, ast.Call) and isinstance(e.func, ast.Name) and e.func.id in ("any", "all") and len(e.args) == 1 \
+                and isinstance(e.args[0], (ast.GeneratorExp, ast.ListComp)) and len(e.args[0].generators) == 1:
+            g = e.args[0].generators[0]
+            if e.func.id == "any":
+                return "any", [*g.ifs, e.args[0].elt], g.target, g.iter
+            if not g.ifs:
+                return "all", [e.args[0].elt], g.target, g.iter
+            return None
+        if isinstance(e, ast.Name) and e.id in self.comp_defs and d.vars.get(f"__cdef.{e.id}") == str(d.epoch):
+            c = self.comp_defs[e.id]
+            g = c.generators[0]
+            return ("any", list(g.ifs), g.target, g.iter) if g.ifs else None
+        if isinstance(e, ast.Compare) and len(e.ops) == 1 and isinstance(e.left, ast.Call) and call_name(e.left) == "len" and e.left.args \
+                and isinstance(e.left.args[0], ast.Name) and isinstance(e.comparators[0], ast.Constant):
+            inner = self.quantifier(e.left.args[0], d)
+            k = e.comparators[0].value
+            if inner and ((isinstance(e.ops[0], ast.Gt) and k == 0) or (isinstance(e.ops[0], ast.GtE) and k == 1) or (isinstance(e.ops[0], ast.NotEq) and k == 0)):
+                return inner
+        return None
+
+    def _elements(self, it: ast.expr, d: AState):
+        t = self.term(it, d)
+        return split_tuple(t) if is_tuple_term(t) else None
+
+    def _with_binding(self, target: ast.expr, elem: str, d: AState, fn):
+        names = [x.id for x in ast.walk(target) if isinstance(x, ast.Name)]
+        saved = {n: d.vars.get(n) for n in names}
+        if isinstance(target, ast.Name):
+            d.vars[target.id] = elem
+        else:
+            return None
+        try:
+            return fn()
+        finally:
+            for n, v in saved.items():
+                if v is None:
+                    d.vars.pop(n, None)
+                else:
+                    d.vars[n] = v
+
     def decide(self, e: ast.expr, d: AState):
         """Truth of a leaf test under the facts, or None."""
         if isinstance(e, ast.UnaryOp) and isinstance(e.op, ast.Not):
             r = self.decide(e.operand, d)
             return None if r is None else not r
+        q = self.quantifier(e, d)
+        if q is not None:
+            kind, tests, target, it = q
+            elems = self._elements(it, d)
+            if elems is None:
+                t = self.term(it, d)
+                elems = [f"{t}[0]", f"{t}[1]"] if (t.startswith("$") or t.startswith("(")) and "(" not in t[1:] else None
+            if elems is None or not isinstance(target, ast.Name):
+                return None
+            conj = tests[0] if len(tests) == 1 else ast.BoolOp(ast.And(), list(tests))
+            rs = [self._with_binding(target, el, d, lambda: self.decide(conj, d)) for el in elems]
+            if kind == "any":
+                return True if any(r is True for r in rs) else (False if all(r is False for r in rs) else None)
+            return False if any(r is False for r in rs) else (True if all(r is True for r in rs) else None)
         if isinstance(e, ast.BoolOp):
             rs = [self.decide(v, d) for v in e.values]
             if isinstance(e.op, ast.And):
@@ -878,6 +965,25 @@ class CondMixin:
     def learn(self, e: ast.expr, outcome: bool, d: AState) -> None:
         if isinstance(e, ast.UnaryOp) and isinstance(e.op, ast.Not):
             return self.learn(e.operand, not outcome, d)
+        q = self.quantifier(e, d)
+        if q is not None:
+            kind, tests, target, it = q
+            elems = self._elements(it, d)
+            if elems is None:
+                # length unknown: the first two positions are what pair-shaped arguments (edges) use
+                t = self.term(it, d)
+                elems = [f"{t}[0]", f"{t}[1]"] if (t.startswith("$") or t.startswith("(")) and "(" not in t[1:] else None
+            if elems is None or not isinstance(target, ast.Name):
+                return
+            if kind == "any" and not outcome:
+                # no element satisfies the conjunction: with a single test, that test is false for every element
+                if len(tests) == 1:
+                    for el in elems:
+                        self._with_binding(target, el, d, lambda: self.learn(tests[0], False, d))
+            elif kind == "all" and outcome:
+                for el in elems:
+                    self._with_binding(target, el, d, lambda: self.learn(tests[0], True, d))
+            return
         if isinstance(e, ast.Call):
             t = self.term(e, d)
             p = parse_call_term(t)
@@ -1753,6 +1859,9 @@ def _engine_transfer(self: Engine, st: PState, stmt: ast.stmt, _ret: bool) -> No
             ):
                 self.bool_defs[t.id] = stmt.value
                 d.vars[f"__bdef.{t.id}"] = str(d.epoch)
+            if isinstance(t, ast.Name) and isinstance(stmt.value, (ast.ListComp, ast.SetComp)) and len(stmt.value.generators) == 1 and stmt.value.generators[0].ifs:
+                self.comp_defs[t.id] = stmt.value
+                d.vars[f"__cdef.{t.id}"] = str(d.epoch)
     elif isinstance(stmt, ast.AnnAssign) and stmt.value is not None:
         self.bind_target(stmt.target, value_term, st)
     elif isinstance(stmt, ast.AugAssign):
